@@ -13,6 +13,7 @@ from ..modutf7 import modutf7_decode
 from ..primitives import List, String, LiteralString
 from ..specials import Mailbox, DateTime, Flag, StatusAttribute, \
     ExtensionOption, ExtensionOptions
+from ..specials.flag import Recent
 
 __all__ = ['AppendCommand', 'CreateCommand', 'DeleteCommand', 'ExamineCommand',
            'ListCommand', 'LSubCommand', 'RenameCommand', 'SelectCommand',
@@ -82,7 +83,7 @@ class AppendCommand(CommandAuth):
         except NotParseable:
             flags: frozenset[Flag] = frozenset()
         else:
-            flags = frozenset(flag_list.get_as(Flag))
+            flags = frozenset(flag_list.get_as(Flag)) - {Recent}
             _, buf = Space.parse(buf, params)
         try:
             date_time_p, buf = DateTime.parse(buf, params)
